@@ -440,6 +440,8 @@ def check(ctx):
         for step in log:
             ctx.count("rewrite_" + step)
         inp = {"original": progs.source_of(p), "rewritten": q, "steps": log}
+        if r2.get("status") == "skipped":
+            continue
         if r2.get("status") != "ok":
             ctx.violation("a meaning-preserving rewrite of an accepted program is no longer accepted (or crashes)", inp, "accepted",
                           {k: v for k, v in r2.items() if k in ("status", "phase", "kind", "msg")})
